@@ -36,3 +36,8 @@ add('C20', 'model_checking',
     'RegisterState::Get<W>/Set<W> of all 19 pseudo registers (the real PseudoRegister/ProxySlot template code) are executed symbolically from an arbitrary well-formed state with a symbolic 16-bit value; SMT decides per word: read-back on writable slots, read-only slots unchanged (with the documented write-1-to-clear loop flag, doubled limit flag and 4-bit accumulator extension), each slot reads/writes exactly its field at its bit position, reserved bits read 0, no field outside the word changes, Inv preserved, and after any Set<W1> every field shared with another word W2 reads the same through both. The annotated disassembler\'s ar/arp decoding (integers handed to std::to_string / ConvertArStepAndOffset) is proved equal to the interpreter fields after Set<ar/arp> of the same words.',
     'Layout oracle is the transcribed table spec/pseudo_regs.py. Disassembler name strings are data and not checked; the test generator\'s ar/arp pinning is examined in C01 (generator clause). Assumes Inv on the pre-state.',
     'symbolic execution of LLVM IR + SMT: table-driven bit-field specification', 'DESIGN.md section 2 C20')
+
+add('C01', 'translation_validation',
+    'Clause A: every row of the current decode table (built by the real GetDecodeTable inside the executor) is dispatched through the real Matcher::call / std::function / Proxy / handler code with the opcode symbolic inside the row, a symbolic second word, a symbolic RegisterState under Inv and data memory as an SMT array, and compared with the same row of the frozen pinned upstream interpreter (/verif/ref, the hardware-validated reference): post-registers, data/program memory writes and exit class must agree wherever the reference completes. Identical IR closures are equal by construction (quick tier still executes a seeded sample of them in both trees; thorough executes all 443); any differing cell is decided by SMT and a counterexample is replayed on natively compiled current and reference interpreters.',
+    'Reference = pinned upstream sources (hardware result file is an LFS pointer, unavailable). Memory interface methods are SMT-array stubs (verified in C11); CounterAcc and the allowed_instruction set are tabulated by running the real code for all keys. Clause B (generator vectors) is checked by the generator obligations when present in the evidence; the Run(1) scaffold is compared in C02/C07/C09.',
+    'symbolic execution of both trees\' LLVM IR + structural term identity / SMT equivalence per decode-table row', 'DESIGN.md section 2 C01')
